@@ -900,6 +900,40 @@ class SymArr:
                 cnt = cnt * self.shape[a]
         return s / cnt
 
+    # over-approximating reductions (fresh result constrained by the universal half of the definition)
+    def any(self, *a, **k):
+        if a or k:
+            raise OutOfSubset("any(axis) on symbolic array")
+        return cur().fresh("any", "bool")
+
+    def all(self, *a, **k):
+        if a or k:
+            raise OutOfSubset("all(axis) on symbolic array")
+        return cur().fresh("all", "bool")
+
+    def _extreme(self, name, cmp):
+        ctx = cur()
+        m = ctx.fresh(name, "int" if self.kind == "int" else "real")
+        idx = [z3.Int(f"i!ext{d}") for d in range(self.ndim)]
+        if idx:
+            rng = z3.And(*[z3.And(i >= 0, i < lift(d)) for i, d in zip(idx, self.shape)])
+            e = lift(self.fn(*idx))
+            if z3.is_bool(e):
+                raise OutOfSubset("max/min of boolean array")
+            a, b = coerce2(e, m.t)
+            ctx.assume(z3.ForAll(idx, z3.Implies(rng, cmp(a, b))))
+        return m
+
+    def max(self, *a, **k):
+        if a or k:
+            raise OutOfSubset("max(axis) on symbolic array")
+        return self._extreme("max", lambda e, m: e <= m)
+
+    def min(self, *a, **k):
+        if a or k:
+            raise OutOfSubset("min(axis) on symbolic array")
+        return self._extreme("min", lambda e, m: e >= m)
+
     def astype(self, dt, copy=True):
         return self.copy()
 
